@@ -10,7 +10,9 @@ the documented layout of certificate block v1 / v2.1, and a state machine of the
                     path; Rewrite; Read by path again); and CONSTRUCTION HISTORIES of one table object (mode "tab": every
                     order of filling 1..4 slots of RKHTv1 / CertBlockV1 by index, every single replacement at every position,
                     append / replace / clear-and-refill of the HAB and AHAB SRK tables; objects that start empty, from a key
-                    list or parsed) - the value after ANY history is the documented construction over the FINAL contents.
+                    list or parsed; a CMPA page that is new or HELD the ROTKH of another key list - of either hash width - before,
+                    from a configuration or a parsed binary, for every family with a ROTKH field) - the value after ANY history is
+                    the documented construction over the FINAL contents.
   MC (RotMC)      : the state machine with small constants; RotMC_asbuilt.cfg is the I-spec of the cached ISK signature (TLC
                     predicts the stale signature, never a verdict).
   Python          : evaluates every emitted term INDEPENDENTLY (hashlib over numbers taken from `cryptography` key objects),
@@ -274,7 +276,13 @@ def devices():
         latest = str(dev.latest_rev)
         if not revs or latest not in revs:
             raise Machinery(f"device table: family {f} has revisions {revs} and latest {latest}")
-        _dev.append({"fam": f, "revs": revs, "rots": rots, "latest": latest, "pfr": f in cmpa, "dc": f in dat})
+        width = 0  # bytes of the ROTKH field of the family's CMPA page (0: none) - what a held value must fit into
+        if f in cmpa:
+            try:
+                width = CMPA(f).registers.find_reg("ROTKH").width // 8
+            except Exception:  # noqa: BLE001 - a page without the field
+                width = 0
+        _dev.append({"fam": f, "revs": revs, "rots": rots, "latest": latest, "pfr": f in cmpa, "dc": f in dat, "rotkh": width})
     path = os.path.join(scratch(), "c03-devices.ndjson")
     tmp = f"{path}.{os.getpid()}"
     with open(tmp, "w") as fh:
@@ -544,14 +552,14 @@ def crashed(a, e, x):
     if a["a"] == "Parse21":
         e.update({"n": 0, "used": 0, "ca": False, "isk": False, "udLen": 0, "ud_ok": False, "cons": 0, "isk_key_ok": False, "reexport_sha": ""})
     if a["a"] == "Parse1":
-        e.update({"img": 0, "build": 0, "rkh_index": -1, "cert_count": 0, "cert_ok": False, "reexport_sha": ""})
+        e.update({"img": 0, "build": 0, "ver": [0, 0], "flags": [0, 0, 0, 0], "rkh_index": -1, "cert_count": 0, "cert_ok": False, "reexport_sha": ""})
     if a["a"] == "Export1":
         e["f"] = EMPTY_F
     return e
 
 
 # ------------------------------------------------------------------ certificate block v1: executor + histories
-EMPTY_F = {"magic_ok": False, "major": 0, "minor": 0, "hdr_len": 0, "flags": 0, "build": 0, "image_length": 0, "cert_count": 0,
+EMPTY_F = {"magic_ok": False, "major": 0, "minor": 0, "hdr_len": 0, "flags": [0, 0, 0, 0], "build": 0, "image_length": 0, "cert_count": 0,
            "entries": [], "table_len": 0, "rkht_at": 0, "total": 0, "tail_zero": False, "used_matches": False, "table": [], "rkh_index": -1}
 
 
@@ -576,9 +584,10 @@ def exec_cb1(data, der_expected, rkh_used):
     f["magic_ok"] = data[:4] == b"cert"
     f["major"], f["minor"] = struct.unpack_from("<2H", data, 4)
     words = struct.unpack_from("<6I", data, 8)
-    if any(w >= 2**31 for w in words):
+    f["flags"] = list(data[12:16])  # the flags word as its four bytes (every bit of it is reported; TLC's integers end at 2^31)
+    if any(w >= 2**31 for w in words[:1] + words[2:]):
         return f
-    f["hdr_len"], f["flags"], f["build"], f["image_length"], f["cert_count"], f["table_len"] = words
+    f["hdr_len"], _, f["build"], f["image_length"], f["cert_count"], f["table_len"] = words
     off, entries = 32, []
     for i in range(min(f["cert_count"], 4)):
         if off + 4 > len(data):
@@ -620,7 +629,7 @@ def replay_cb1(job):
         e = {k: v for k, v in a.items() if k not in ("rkth", "table")}
         try:
             if a["a"] == "Build1":
-                cb = CertBlockV1(build_number=a["build"])
+                cb = CertBlockV1(version=f"{a['ver'][0]}.{a['ver'][1]}", flags=int.from_bytes(bytes(a["flags"]), "little"), build_number=a["build"])
                 cb.add_certificate(Certificate.load(kfile(kname(used_key), "crt.der")))
                 for i, k in enumerate(a["keys"]):
                     cb.set_root_key_hash(i, Certificate.load(kfile(kname(k), "crt.pem")))
@@ -638,6 +647,7 @@ def replay_cb1(job):
                 e["got"] = val(p.rkth)
                 idx = p.rkh_index
                 facts = {"img": p.image_length, "build": p.header.build_number, "rkh_index": -1 if idx is None else idx,
+                         "ver": [int(x) for x in p.header.version.split(".")], "flags": list(int(p.header.flags).to_bytes(4, "little")),
                          "cert_count": len(p.certificates), "cert_ok": len(p.certificates) == 1 and p.certificates[0].export(SPSDKEncoding.DER) == der}
                 try:
                     facts["reexport_sha"] = hashlib.sha256(p.export()).hexdigest()
@@ -687,14 +697,39 @@ def tab_cert(k, form):
     return Certificate.load(kfile(kname(k), "ca.der" if form == "ca" else "crt.der"))
 
 
-def tab_start(a, env, pick=0):
+def pfr_family(fl, scen, pick):
+    """The family of a PFR history: the one the scenario names, else the families of that RoT type take turns."""
+    fams = families()[("cert_block_1" if fl == "pfr1" else "cert_block_21", "pfr")]
+    return (scen or {}).get("fam") or fams[pick % len(fams)]
+
+
+def tab_start(a, env, pick=0, scen=None):
     fl, origin, init = a["fl"], a["origin"], a["init"]
     image = ev(a["image"], env)
-    if fl in ("pfr1", "pfr21"):  # a CMPA page object of a family of that RoT type (the families take turns)
-        from spsdk.pfr.pfr import CMPA
+    if fl in ("pfr1", "pfr21"):  # a CMPA page object of a family of that RoT type
+        from spsdk.pfr.pfr import CMPA, BaseConfigArea
 
-        fams = families()[("cert_block_1" if fl == "pfr1" else "cert_block_21", "pfr")]
-        return CMPA(fams[pick % len(fams)])
+        fam = pfr_family(fl, scen, pick)
+        if origin == "new":
+            return CMPA(fam)
+        # the object HELD a value before: a page whose ROTKH field carries the value of the held list (the spec's term, evaluated here,
+        # zero padded to the field and written into a blank page by hand) is parsed; "cfg": the configuration `pfr parse-binary` writes
+        # for that page is loaded (what `pfr generate-binary -c` starts from)
+        blank = CMPA(fam)
+        reg = blank.registers.find_reg("ROTKH")
+        width = reg.width // 8
+        if len(image) > width:
+            raise Machinery(f"history {pick}: a held value of {len(image)} bytes and a ROTKH field of {width} ({fam})")
+        held = image + bytes(width - len(image))
+        page = blank.export(draw=False)
+        page = page[:reg.offset] + held + page[reg.offset + width:]
+        obj = CMPA(fam)
+        obj.parse(page)
+        if origin == "cfg":
+            obj = BaseConfigArea.load_from_config(obj.get_config())
+        if not isinstance(obj, CMPA) or obj.export(draw=False)[reg.offset:reg.offset + width] != held:
+            raise Machinery(f"history {pick}: the start state was not reached - the {fam} page object ({origin}) does not hold the value it was given")
+        return obj
     if fl == "rkht1":
         from spsdk.utils.crypto.rkht import RKHTv1
 
@@ -820,7 +855,9 @@ def replay_tab(job):
         e = {k: v for k, v in a.items() if k not in ("term", "table")}
         try:
             if a["a"] == "StartT":
-                obj = tab_start(a, env, tid)
+                if fl in ("pfr1", "pfr21"):
+                    e["fam"] = pfr_family(fl, beh["scen"], tid)
+                obj = tab_start(a, env, tid, beh["scen"])
             elif a["a"] == "ComputeT":
                 e.update({"term": a["term"], "table_term": a["table"], "want": list(ev(a["term"], env)), "table_want": list(ev(a["table"], env))})
                 e.update(tab_observe(fl, obj, a))
@@ -843,6 +880,8 @@ def tab_class(evs, upto):
         if e["a"] == "StartT":
             origin = e["origin"]
             filled = set(range(1, len(e["init"]) + 1))
+            if e["fl"] in ("pfr1", "pfr21") and e["init"]:  # the page held the value of another list: its key type is part of the class
+                origin += f"-held-{e['init'][0]['k']['cls']}x{len(e['init'])}"
         elif e["a"] == "SetSlot":
             if e["i"] in filled:
                 tags.add("replace")
@@ -918,7 +957,29 @@ def canary_tab(behs):
     bad4["ev"][-1]["tbl"]["v"][40] ^= 4
     if shifted == bytes(good["ev"][-1]["table_want"]):
         raise Machinery("history canary: the shifted table equals the documented one")
-    return [good, bad1, bad2, bad3, bad4], {"canary-tab-shift": "value", "canary-tab-lostwrite": "term", "canary-tab-refused": "refused", "canary-tab-table": "table"}
+    # a PFR page that held the value of a list of the LONGER hash and is exported with a list of the shorter one: the field is the new value,
+    # zero padded (accepted); the field of a page that only overwrites the words the shorter value covers - new value, then the tail of the
+    # held one - is rejected
+    h = next(x for x in behs if x["scen"]["fl"] == "pfr21" and x["scen"]["origin"] == "parsed" and x["scen"]["cls"] == "p256" and x["scen"]["hcls"] == "p384")
+    width = next(d["rotkh"] for d in devices() if d["fam"] == h["scen"]["fam"])
+    held_value = ev(h["hist"][0]["image"], env)
+    hevs = []
+    for a in h["hist"]:
+        e = {k: v for k, v in a.items() if k not in ("term", "table")}
+        if a["a"] == "ComputeT":
+            want, table = ev(a["term"], env), ev(a["table"], env)
+            e.update({"term": a["term"], "table_term": a["table"], "want": list(want), "table_want": list(table), "got": val(want + bytes(width - len(want))),
+                      "tbl": NA, "fuses": NA, "parsed": NA, "f": EMPTY_F, "fieldLen": width})
+        hevs.append(e)
+    good_h = {"id": "canary-tab-held-good", "ev": hevs}
+    bad5 = json.loads(json.dumps(good_h))
+    bad5["id"] = "canary-tab-held-stale"
+    first = next(e for e in bad5["ev"] if e["a"] == "ComputeT")
+    if not (len(first["want"]) < len(held_value) <= width) or not any(held_value[len(first["want"]):]):
+        raise Machinery("history canary: the held value is not longer than the new one")
+    first["got"]["v"] = first["want"] + list((held_value + bytes(width - len(held_value)))[len(first["want"]):])
+    return [good, bad1, bad2, bad3, bad4, good_h, bad5], {"canary-tab-shift": "value", "canary-tab-lostwrite": "term", "canary-tab-refused": "refused",
+                                                          "canary-tab-table": "table", "canary-tab-held-stale": "value"}
 
 
 # ------------------------------------------------------------------ key files: write, read by path, rewrite, read again
@@ -1124,7 +1185,10 @@ def finding_key(t, matched, evname, why):
         rot = {"rkht1": "cert_block_1", "cb1": "cert_block_1", "hab": "srk_table_hab", "ahab": "srk_table_ahab", "ahab2": "srk_table_ahab_v2",
                "pfr1": "cert_block_1", "pfr21": "cert_block_21"}[sc["fl"]]
         at = min(matched, len(evs) - 1)
-        return f"C03/{rot}/history/{sc['fl']}/{tab_class(evs, at)}/{evname}/{sc['cls']}x{len(evs[at].get('keys', [])) or sc['n']}/{why}"
+        kc = f"{sc['cls']}x{len(evs[at].get('keys', [])) or sc['n']}"
+        if sc["fl"] in ("pfr1", "pfr21") and evs[at].get("keys"):  # a page is handed lists of either key type: the type of THIS list
+            kc = key_class(evs[at]["keys"])
+        return f"C03/{rot}/history/{sc['fl']}/{tab_class(evs, at)}/{evname}/{kc}/{why}"
     return f"C03/{evname}/{why}"
 
 
@@ -1222,6 +1286,17 @@ def tab_lane(menu, quick):
             or not all(any(b["scen"]["fl"] == fl and b["scen"]["clear"] for b in tabs) for fl in ("ahab", "ahab2")) \
             or not all(any(b["scen"]["fl"] == fl for b in tabs) for fl in ("pfr1", "pfr21")):
         raise Machinery(f"history lane incomplete: orders {sorted((k, len(x)) for k, x in orders.items())}, {len(repl)} replacement classes")
+    # ... and EVERY family with a ROTKH field x every key type the field takes x every key type of the value the page held before x both ways
+    # of coming to hold it
+    held = {(b["scen"]["fam"], b["scen"]["cls"], b["scen"]["hcls"], b["scen"]["origin"]) for b in tabs if b["scen"]["fl"] in ("pfr1", "pfr21")}
+    need = set()
+    for d in devices():
+        rot = d["rots"][d["revs"].index(d["latest"])]
+        cls = {"cert_block_1": ["rsa2048"], "cert_block_21": [c for c, n in (("p256", 32), ("p384", 48)) if n <= d["rotkh"]]}.get(rot, [])
+        if d["pfr"] and d["rotkh"]:
+            need |= {(d["fam"], c, h, o) for c in cls for h in cls for o in ("cfg", "parsed")}
+    if not need or need - held or not any(c != h for _, c, h, _ in need):
+        raise Machinery(f"history lane incomplete: {len(need - held)} of {len(need)} (family, key type, held key type, origin) missing, e.g. {sorted(need - held)[:3]}")
     traces = [replay_tab((5000000 + i, b)) for i, b in enumerate(tabs)]
     t2 = time.time()
     canaries, _ = canary_tab(tabs)
@@ -1352,7 +1427,7 @@ def run(tier):
     v.count(len(traces))
     for t in traces:
         if any(e.get("got", {}).get("k") == "val" for e in t["ev"]):
-            v.nontrivial(sha([[{k: x for k, x in e.items() if k in ("a", "c", "fam", "rev", "keys", "used", "isk", "udLen", "cons", "len", "img", "build", "f", "k", "enc", "rot", "files", "path",
+            v.nontrivial(sha([[{k: x for k, x in e.items() if k in ("a", "c", "fam", "rev", "keys", "used", "isk", "udLen", "cons", "len", "img", "build", "f", "k", "enc", "rot", "files", "path", "ver", "flags",
                                                                  "fl", "origin", "init", "cert", "i", "form", "index")}
                                 for e in t["ev"]]]))
     by_id = {t["id"]: t for t in traces}
@@ -1432,10 +1507,13 @@ def run(tier):
         f"{'all' if not quick else 'four'} orders x used index x every tool path) + encoding sweep (every encoding each path takes, uniform and mixed) + "
         f"{len(extra)} sampled / family sweep (every family of the database through Rot, CMPA, DAT); {len(devcases)} ComputeFor cases = device sweep (every family x "
         f"every silicon revision of the device table and the name 'latest' - {sum(len(d['revs']) + 1 for d in devs)} pairs, "
-        f"{sum(1 for d in devs if len(set(d['rots'])) > 1)} family with revisions of different RoT types - x Rot value / Rot table / nxpcrypto -r / CMPA / debug credential); histories: {len(behs['cb21'])} cert-block v2.1, {len(behs['cb1'])} v1, {len(behs['files'])} key-file rewrite; "
+        f"{sum(1 for d in devs if len(set(d['rots'])) > 1)} family with revisions of different RoT types - x Rot value / Rot table / nxpcrypto -r / CMPA / debug credential); histories: {len(behs['cb21'])} cert-block v2.1, {len(behs['cb1'])} v1 (header fields version / flags word / build number / image length default and other than default: "
+        f"every one of them is in the exported block and in the parsed object), {len(behs['files'])} key-file rewrite; "
         f"{len(tabs)} construction histories of ONE table object (RKHTv1.set_rkh and CertBlockV1.set_root_key_hash / add_certificate: every order of filling 1..4 slots by "
         f"index, every single replacement at every position{'' if quick else ' and every pair of replacements (RKHTv1)'}, objects that start empty / from a key list / parsed, value read on the way; HAB SrkTable "
-        "append / table[i] = item; AHAB SRKTable and SRKTableV2 add_record / clear and refill; one CMPA page object exported with key list A, B, A again): value, table, fuse words, exported and re-parsed object = the documented "
+        "append / table[i] = item; AHAB SRKTable and SRKTableV2 add_record / clear and refill; one CMPA page object exported with key list A, B, A again - a new page, and for EVERY family with a ROTKH field x every key type the field takes x every key type "
+        "of the held list a page that HELD the value of another key list before (also of the other hash width), loaded from a configuration that carries the ROTKH or parsed "
+        "from a binary that does): value, table, fuse words, exported and re-parsed object = the documented "
         "construction over the FINAL contents; "
         "a trace is non-trivial if the real code returned a value in it (distinct by the abstract arguments)")
     v.cov["exhaustive"] = False
@@ -1457,6 +1535,8 @@ def run(tier):
         "for AHAB); a v1 table with a hole (the configuration front end refuses holes) and an AHAB table with fewer than four records are not asserted - so an "
         "update_fields() on an incomplete AHAB table (which freezes its length field) is not generated; RKHTv21 / CertBlockV21 / the RoT meta of debug credentials have "
         "no incremental builder; exporting a v1 block whose certificate key is not in the table is not asserted",
+        "PFR: the ROTKH field is asserted for export(keys=...) - the key list is handed over; export(rotkh=<value computed elsewhere>) takes a VALUE, not keys, and is not "
+        "driven; a v1 header build number is exercised below 2^31, the flags word as four bytes (bit 31 only in the thorough tier)",
     ]
     return v.finish()
 
@@ -1529,7 +1609,7 @@ def replay(path):
 
 
 ARGS = {"Build21": ("keys", "used", "isk", "iskKey", "udLen", "cons"), "SetUserData": ("len",), "SetConstraints": ("cons",),
-        "Build1": ("keys", "used", "img", "build"), "SetImageLength": ("img",), "WriteFile": ("f", "k", "enc"),
+        "Build1": ("keys", "used", "img", "build", "ver", "flags"), "SetImageLength": ("img",), "WriteFile": ("f", "k", "enc"),
         "ReadByPath": ("rot", "files", "path", "used"), "StartT": ("fl", "origin", "init", "cert"), "SetSlot": ("i", "k", "form"),
         "AppendSlot": ("k", "form"), "AddCertificate": ("k",), "SetAll": ("keys",), "ComputeT": ("keys", "index")}
 
